@@ -9,6 +9,7 @@
   (a fact about the JAX runtime) — covered only by the multi-mode differential tie of harness/c19.py.
 -/
 import Scico.Proofs.Cache
+import Scico.Proofs.CacheOpts
 
 namespace Scico.Props.C19
 open Scico.Cache
@@ -231,6 +232,67 @@ theorem C19_solver_attach (ss : List Nat) :
 -- non-vacuity: one solver object (id 7) given to two optimisers: optimiser 0 now reads optimiser 1's state
 example : (World.run World.empty [7, 7]).readsFrom 0 = some 1 := by decide
 example : (World.run World.empty [7, 8, 9]).readsFrom 1 = some 1 := by decide
+
+/-! ### constructor options and shared defaults -/
+
+/-- Constructors that build their option dictionary from a literal (`LinearSubproblemSolver.cg_kwargs`,
+    `MatrixSubproblemSolver.solve_kwargs`, `SquaredL2Loss.prox_kwargs`): after ANY history of constructions
+    (with any option dictionaries), dictionaries built by the caller and in-place writes to any dictionary object,
+    (a) an object constructed without options sees exactly the literal defaults, (a') with options `u` the
+    literal updated by `u`; (b) no two objects hold the same dictionary and none holds the default object;
+    (c) a constructor call leaves every existing dictionary (the caller's options included) as it was. -/
+theorem C19_defaults_fresh {ν : Type} (lit : Dict ν) (ops : List (OptOp ν)) :
+    let w := OptWorld.run .copyUpdate lit (OptWorld.init lit) ops
+    (w.ctor .copyUpdate lit none).view w.insts.length = some lit ∧
+    (∀ a u, w.dicts[a]? = some u → (w.ctor .copyUpdate lit (some a)).view w.insts.length = some (lit.update u)) ∧
+    w.insts.Nodup ∧ 0 ∉ w.insts ∧
+    (∀ arg id, id < w.dicts.length → (w.ctor .copyUpdate lit arg).dicts[id]? = w.dicts[id]?) := by
+  intro w
+  have hw : w.WF := OptWorld.wf_run .copyUpdate lit ops _ (OptWorld.wf_init lit)
+  refine ⟨?_, ?_, ?_, ?_, ?_⟩
+  · simp [OptWorld.view, OptWorld.ctor]
+  · intro a u ha
+    simp [OptWorld.view, OptWorld.ctor, ha]
+  · exact OptWorld.nodup_run_copy lit ops _ (OptWorld.wf_init lit) (by simp [OptWorld.init])
+  · exact OptWorld.zero_not_inst_copy lit ops _ (OptWorld.wf_init lit) (by simp [OptWorld.init])
+  · intro arg id hid
+    simp only [OptWorld.ctor]
+    exact List.getElem?_append_left hid
+
+/-- A constructor that stores its mutable default argument by reference (`GenericSubproblemSolver`,
+    `minimize_kwargs={"options": …}`), code as it is, partial: every object constructed without options holds THE
+    default-argument object; what a later one sees is the literal with exactly the in-place writes to that object
+    applied — so it sees the literal defaults as long as nobody writes into the options of a default-constructed
+    object (scico itself only reads them: checked by the tie), whatever else happens. -/
+theorem C19_defaults_shared_partial {ν : Type} (lit : Dict ν) (ops : List (OptOp ν)) :
+    let w := OptWorld.run .byRef lit (OptWorld.init lit) ops
+    (w.ctor .byRef lit none).view w.insts.length = some (mutsOn 0 ops lit) ∧
+    ((∀ k v, OptOp.mutate 0 k v ∉ ops) → (w.ctor .byRef lit none).view w.insts.length = some lit) := by
+  intro w
+  have h0 : w.dicts[0]? = some (mutsOn 0 ops lit) :=
+    OptWorld.dict_run .byRef (by decide) lit ops 0 (OptWorld.init lit) lit rfl
+  have hv : (w.ctor .byRef lit none).view w.insts.length = some (mutsOn 0 ops lit) := by
+    simp [OptWorld.view, OptWorld.ctor, h0]
+  exact ⟨hv, fun hno => by rw [hv, mutsOn_none 0 ops hno]⟩
+
+/-- Negation witnesses.  Stored-by-reference default: one in-place write through a default-constructed object
+    reaches every later default-constructed object.  Class-level dictionary updated in place (not in scico; the
+    seeded defect): options given to ONE constructor call are seen by a later default-constructed object — while
+    the literal pattern is immune to both. -/
+theorem C19_defaults_leak :
+    let lit : Dict Nat := [("maxiter", 100)]
+    ((OptWorld.run .byRef lit (OptWorld.init lit) [.ctor none, .mutate 0 "maxiter" 5, .ctor none]).view 1
+        = some [("maxiter", 5)]) ∧
+    ((OptWorld.run .classUpdate lit (OptWorld.init lit) [.userDict [("maxiter", 7)], .ctor (some 1), .ctor none]).view 1
+        = some [("maxiter", 7)]) ∧
+    ((OptWorld.run .copyUpdate lit (OptWorld.init lit) [.userDict [("maxiter", 7)], .ctor (some 1), .mutate 2 "maxiter" 5,
+        .ctor none]).view 1 = some lit) := by decide
+
+-- non-vacuity: options {"tol": 3} given to one object, then a default-constructed one
+example : (OptWorld.run .copyUpdate [("tol", 4), ("maxiter", 100)] (OptWorld.init [("tol", 4), ("maxiter", 100)])
+    [.userDict [("tol", 3)], .ctor (some 1), .ctor none] : OptWorld Nat).dicts
+    = [[("tol", 4), ("maxiter", 100)], [("tol", 3)], [("tol", 3), ("maxiter", 100)], [("tol", 4), ("maxiter", 100)]] := by
+  decide
 
 /-! ### random generators -/
 
